@@ -30,7 +30,7 @@ META = dict(
         'means); 6 transformations; symbolic: budget, share, volume '
         'tolerance, treatment size range, n_geos_max (one at a time); 3 '
         'eligibility tables; both searches; 2^k in {2^3, 2^10, 2^-4}',
-        thorough='adds P3 P8, pairs of symbolic constraints, more '
+        thorough='adds P3, pairs of symbolic constraints, more '
         'seeded permutations'),
     outside='panels concrete; scale factors are powers of two (exact in '
     'IEEE arithmetic); date shifts by whole days',
@@ -191,7 +191,7 @@ def jobs(tier, seed):
   out = []
   syms = [['budget'], ['share'], ['vol'], ['tsize'], ['ngm']]
   panels_ = ['P1', 'P11', 'P12'] if tier == 'quick' else [
-      'P1', 'P11', 'P12', 'P3', 'P8']
+      'P1', 'P11', 'P12', 'P3']
   for panel in panels_:
     for m in ['exhaustive', 'greedy']:
       for t in TRANSFORMS:
